@@ -31,6 +31,7 @@ ASSUMPTIONS = [
     "lattice + boundary points, not the continuum; no probe point lies closer than 0.1*tolerance to a decision boundary (guard band)",
     "agreement claimed when the same tolerance arguments are passed to all three checkers; linear mode compared on non-negative schedules",
     "buffer block: one ndarray owned by the caller, overwritten in place between consecutive network-side queries (phase-aware and linear)",
+    "template 'emptyterm': constraints written as sums/differences with an EMPTY Current (the bundled JPL site does); multi-period schedules include neighbours 3e-6 apart (creeping across a boundary)",
     "history block: the constraint set is edited (update same name / update first / remove / add) under a live Interface; after every edit the lattice + boundary points of the edited set are re-checked",
 ]
 CHUNK = 4
